@@ -318,7 +318,8 @@ theorem presealMelmint_coins (id : CoinID) (env : Env) (s s' : State) (h : prese
       rcases hnr tx htx he with hh | hh
       · exact hh.2.2 hk
       · rw [hck] at hh; cases hh
-    exact c3.trans (processPegging_coins id _ _ h)
+    have c3' : CoinsSameAt id s3 (createBuiltins s3) := ⟨rfl, rfl, rfl⟩
+    exact (c3.trans c3').trans (processPegging_coins id _ _ h)
 
 theorem sealState_coins (id : CoinID) (env : Env) (s : State) (a : Option ProposerAction) (ss : Sealed)
     (h : sealState env s a = .ok ss) (hnr : NoRequestAt id s.txs)
